@@ -25,6 +25,7 @@ class Holder:
         # selection entry: the crate-local call whose result is assigned to hs_disclosures
         ws = [w for w in (common.struct_field_writes(fx, HSTRUCT, "hs_disclosures", fns=[self.present]) or []) if w["how"] in ("assign", "calldest")]
         self.sel_entry = None
+        self.field_out = None
         for w in ws:
             v = peel(w["value"])
             while v.kind in ("variant", "field") and v.kids:
@@ -72,13 +73,15 @@ class Holder:
                 if v.kind == "call" and v.d["term"].get("name") in ("new", "default") and not v.kids:
                     empt.append(w["bb"])
         doms = [e for e in empt if b not in cfg.reachable(P, [0], removed_blocks=[e])]
-        if not doms:
-            return
-        e = doms[-1]
-        between = cfg.reach_strict(P, e) - {b}
-        for ob, ot in P.calls():
-            if ob in between and ob != e and b in cfg.reach_strict(P, ob) and any(isf(k_) for k_ in pv.call_node(ob).kids) and ot.get("name") not in ("len", "is_empty", "iter", "clone"):
-                return
+        self.field_out = {"bb": b, "line": P.term(b).get("line"), "emptied": bool(doms)}
+        if doms:
+            e = doms[-1]
+            between = cfg.reach_strict(P, e) - {b}
+            for ob, ot in P.calls():
+                if ob in between and ob != e and b in cfg.reach_strict(P, ob) and any(isf(k_) for k_ in pv.call_node(ob).kids) and ot.get("name") not in ("len", "is_empty", "iter", "clone"):
+                    self.field_out["emptied"] = False
+        # a selection that accumulates into a field that was not emptied first is reported by C06.H2 (selection-emptied); the walkers are
+        # still the walkers, so the other clauses are judged on them
         self.sel_entry = G
         self.sel_call = n
 
